@@ -217,8 +217,120 @@ def keySuffix (k : OrderKey) : String :=
 
 def b01 (b : Bool) : String := if b then "1" else "0"
 
+/-! ### the specification semantics itself (`eval`, `evalFrom`, `evalSelect`, `evalGSelect`, `exec`) as
+values, to be compared with sqlite3 on the same inputs -/
+
+def sqliteEnv : Env := ⟨fun _ _ => none, true, fun _ => []⟩
+
+def readVal (s : String) : Val := if s == "n" then none else s.toInt?
+
+def showVal : Val → String
+  | none => "n"
+  | some n => toString n
+
+def showRows (t : Render.Table) : String :=
+  if t.isEmpty then "-" else "/".intercalate (t.map fun r => ",".intercalate (r.map showVal))
+
+def readRows (s : String) : Render.Table :=
+  if s == "-" then [] else (s.splitOn "/").map fun r => (r.splitOn ",").map readVal
+
+def splitSemi (ts : List String) : List (List String) :=
+  let go := ts.foldl (fun (acc : List (List String) × List String) t =>
+    if t == ";" then (acc.1 ++ [acc.2], []) else (acc.1, acc.2 ++ [t])) ([], [])
+  go.1 ++ [go.2]
+
+def readOpt (ts : List String) : Option (Option Render.Expr) :=
+  match ts with
+  | ["-"] => some none
+  | _ => match readE ts with | some (e, []) => some (some e) | _ => none
+
+def readDb (ts : List String) : Option Db :=
+  match ts with
+  | [t, u] => some ⟨fun _ => 2, fun i => if i = 0 then readRows t else if i = 1 then readRows u else []⟩
+  | _ => none
+
+def readFrom (ts : List String) : Option From :=
+  match ts with
+  | ["t"] => some (.table 0)
+  | ["i"] => some (.join (.table 0) "JOIN" true 1 none)
+  | "j" :: jt :: rest => (readOpt rest).map fun on => .join (.table 0) (jt.replace "_" " ") false 1 on
+  | _ => none
+
+def readKeys (ts : List String) : List OrderKey :=
+  if ts == ["-"] then [] else ts.filterMap fun t =>
+    match t.splitOn ":" with
+    | [c, d, n] => c.toNat?.map fun c => ⟨.col c, unus d, unus n⟩
+    | _ => none
+
+def readNatOpt (s : String) : Option Nat := if s == "-" then none else s.toNat?
+
+def readT (t : String) : Option TExpr :=
+  match t.splitOn ":" with
+  | ["cs"] => some .countStar
+  | ["p", c] => c.toNat?.map fun c => .plain (.col c)
+  | ["a", f, c] =>
+    let fn := if f == "count" then some AggFn.count else if f == "sum" then some .sum
+      else if f == "min" then some .min else if f == "max" then some .max else none
+    match fn, c.toNat? with | some fn, some c => some (.agg fn (.col c)) | _, _ => none
+  | _ => none
+
+def semQS (ts : List String) : String :=
+  match splitSemi ts with
+  | [db, fr, wh, [di], ord, [li], [off]] =>
+    match readDb db, readFrom fr, readOpt wh with
+    | some db, some f, some w =>
+      let width := fromWidth db f
+      let s : Select := ⟨di == "1", (List.range width).map fun i => ⟨.col i, none⟩, f, w, readKeys ord,
+        readNatOpt li, readNatOpt off⟩
+      showRows (evalSelect sqliteEnv db s)
+    | _, _, _ => "bad-line"
+  | _ => "bad-line"
+
+def semQG (ts : List String) : String :=
+  match splitSemi ts with
+  | [db, wh, grp, tg, hv] =>
+    match readDb db, readOpt wh with
+    | some db, some w =>
+      let keys : List Render.Expr := if grp == ["-"] then [] else grp.filterMap fun c => c.toNat?.map .col
+      let targets := tg.filterMap readT
+      let having : Option (TExpr × Cmp × Int) := match hv with
+        | [t, c, n] => match readT t, cmpOfKey (c.replace "_" " "), n.toInt? with
+          | some t, some c, some n => some (t, c, n) | _, _, _ => none
+        | _ => none
+      showRows (evalGSelect sqliteEnv db ⟨targets, .table 0, w, keys, having, [], none, none⟩)
+    | _, _ => "bad-line"
+  | _ => "bad-line"
+
+def semQX (ts : List String) : String :=
+  match splitSemi ts with
+  | [db, "ins" :: cols :: [rows]] =>
+    match readDb db with
+    | some db =>
+      let cs := (cols.splitOn ",").filterMap (·.toNat?)
+      let rs := (readRows rows).map fun r => r.map fun v => match v with | none => Render.Expr.null | some n => .int n
+      showRows (exec sqliteEnv db (.insert 0 cs rs))
+    | none => "bad-line"
+  | [db, "upd" :: c :: e, wh] =>
+    match readDb db, c.toNat?, readE e, readOpt wh with
+    | some db, some c, some (e, []), some w => showRows (exec sqliteEnv db (.update 0 [(c, e)] w))
+    | _, _, _, _ => "bad-line"
+  | [db, ["del"], wh] =>
+    match readDb db, readOpt wh with
+    | some db, some w => showRows (exec sqliteEnv db (.delete 0 w))
+    | _, _ => "bad-line"
+  | _ => "bad-line"
+
 def handle (line : String) : String :=
   match (line.trimAscii.toString.splitOn " ").filter (· ≠ "") with
+  | "V" :: v0 :: v1 :: v2 :: v3 :: rest =>
+    match readE rest with
+    | some (e, []) =>
+      let vs := [readVal v0, readVal v1, readVal v2, readVal v3]
+      showVal (eval sqliteEnv (fun i => (vs[i]?).join) e)
+    | _ => "bad-line"
+  | "QS" :: rest => semQS rest
+  | "QG" :: rest => semQG rest
+  | "QX" :: rest => semQX rest
   | "E" :: rest =>
     match readE rest with
     | some (e, []) =>
